@@ -1,0 +1,116 @@
+//! Verification hooks.
+//!
+//! Only compiled with `--cfg googlefonts_fontations_verif`; not part of the
+//! public API. These let an external harness (a) observe/perturb the global
+//! object-id counter and insert a scheduling point before each allocation,
+//! and (b) drive the offset packer on abstract object graphs.
+
+use super::*;
+use crate::write::OffsetRecord;
+use std::sync::{atomic::Ordering, OnceLock};
+
+static SCHED_HOOK: OnceLock<fn()> = OnceLock::new();
+
+/// Install a function called immediately before every `ObjectId` allocation.
+///
+/// Can only be set once per process.
+pub fn install_sched_hook(f: fn()) -> bool {
+    SCHED_HOOK.set(f).is_ok()
+}
+
+#[inline]
+pub(super) fn sched_point() {
+    if let Some(f) = SCHED_HOOK.get() {
+        f()
+    }
+}
+
+/// Set the process-wide object counter.
+pub fn set_counter(value: u64) {
+    OBJECT_COUNTER.store(value, Ordering::SeqCst);
+}
+
+/// Advance the process-wide object counter, as a foreign thread would.
+pub fn advance_counter(by: u64) {
+    OBJECT_COUNTER.fetch_add(by, Ordering::SeqCst);
+}
+
+/// The current value of the process-wide object counter.
+pub fn counter() -> u64 {
+    OBJECT_COUNTER.load(Ordering::SeqCst)
+}
+
+/// One outgoing offset of an abstract object.
+#[derive(Clone, Debug)]
+pub struct LinkSpec {
+    /// index of the target object in the spec list
+    pub target: usize,
+    /// width in bytes: 2, 3 or 4
+    pub width: u8,
+    /// position of the offset bytes within the parent
+    pub pos: u32,
+    /// value subtracted from the resolved offset
+    pub adjustment: u32,
+}
+
+/// An abstract object: `size` bytes of `fill`, with offsets at given positions.
+#[derive(Clone, Debug)]
+pub struct NodeSpec {
+    pub size: u32,
+    pub fill: u8,
+    pub links: Vec<LinkSpec>,
+}
+
+/// What the packer did with a graph.
+#[derive(Clone, Debug, Default)]
+pub struct PackOutcome {
+    /// return value of `pack_objects`
+    pub packed: bool,
+    /// true if the initial topological sort was already overflow free
+    pub basic_sort_sufficed: bool,
+    /// serialized bytes, if packed
+    pub bytes: Option<Vec<u8>>,
+    /// sizes of the objects in final order, if packed
+    pub order_sizes: Vec<u32>,
+}
+
+/// Build a `Graph` from abstract node specs (node 0 is the root), pack and serialize it.
+pub fn pack_graph(specs: &[NodeSpec]) -> PackOutcome {
+    let ids: Vec<ObjectId> = specs.iter().map(|_| ObjectId::next()).collect();
+    let mut objects = BTreeMap::new();
+    for (spec, id) in specs.iter().zip(&ids) {
+        let mut data = TableData::new(TableType::MockTable);
+        data.bytes = vec![spec.fill; spec.size as usize];
+        for link in &spec.links {
+            data.offsets.push(OffsetRecord {
+                pos: link.pos,
+                len: match link.width {
+                    2 => OffsetLen::Offset16,
+                    3 => OffsetLen::Offset24,
+                    _ => OffsetLen::Offset32,
+                },
+                object: ids[link.target],
+                adjustment: link.adjustment,
+            });
+        }
+        objects.insert(*id, data);
+    }
+    let mut probe = Graph::from_objects(objects.clone(), ids[0]);
+    let basic_sort_sufficed = probe.basic_sort();
+    let mut graph = Graph::from_objects(objects, ids[0]);
+    let packed = graph.pack_objects();
+    let mut out = PackOutcome {
+        packed,
+        basic_sort_sufficed,
+        ..Default::default()
+    };
+    if packed {
+        out.order_sizes = graph
+            .order
+            .iter()
+            .map(|id| graph.objects[id].bytes.len() as u32)
+            .collect();
+        out.bytes = Some(graph.serialize());
+    }
+    out
+}
